@@ -6,9 +6,9 @@
 (*           completion, stop/start, connect/disconnect), from every       *)
 (*           initial torrent state.  ASIS = FALSE is the design (Inv must  *)
 (*           hold); ASIS = TRUE is today's replay (TLC exports the lead).  *)
-(*  GenSpec  message sequences for the driver (-simulate): label, number   *)
-(*           of attackers, (peer, class) list, optional Stop position.     *)
-(*  HdrSpec  prints the class alphabet with the design verdicts once.      *)
+(*  (MC_PeerInputGen extends this module with the generator GenSpec.)      *)
+(*  Verdicts the class alphabet with the design verdicts (printed once by   *)
+(*           MC_PeerInputGen; the driver must know the same class names).  *)
 (***************************************************************************)
 EXTENDS PeerInput, Json
 CONSTANTS N, NPE, K, ASIS, ALPHA, MAXLEN
@@ -60,7 +60,4 @@ Verdicts(c) == [cls |-> c, rv |-> RV(c), queueable |-> c \in Queueable, starter 
                 res |-> [t \in {"meta", "alloc", "verify", "down", "seed"} |-> SetToSeq(Res(t, c))],
                 benign |-> [t \in {"meta", "alloc", "verify", "down", "seed"} |-> Benign(t, c)],
                 closer |-> (c \in Queueable /\ LiveRes(c) = {"dropped"})]
-HdrInit == /\ InitWith(MCfg, "down") /\ nmsg = 0 /\ h = << >>
-           /\ PrintT("@@" \o ToJson([classes |-> [c \in Classes |-> Verdicts(c)]]))
-HdrSpec == HdrInit /\ [][UNCHANGED mvars]_mvars
 =============================================================================
